@@ -218,6 +218,7 @@ def run(ck, w):
     o = ck.ob("C01.4", "the (possibly negative) sub-second part of a Timestamp never reaches an unsigned conversion without a sign test")
     n_src = 0
     bad = []
+    borrow_bad = []
     for b in rules.user_bodies(lib):
         if b.file.startswith("src/test_fixtures") or rules.is_derive_body(b):
             continue
@@ -225,19 +226,34 @@ def run(ck, w):
         for src in srcs:
             n_src += 1
             tracked = {src.dest["l"]}
-            sanitized = False
-            sinks = []
+            coarse = False          # sanitised by a method whose result is non-negative / checked
+            sinks = []              # (what, line, bb)
+            tests = []              # (bool local, polarity on which the value is known non-negative)
+            fixes = set()           # blocks that add 1_000_000_000 to the value
             changed = True
             while changed:
                 changed = False
                 for bb, j, s in b.all_assigns():
                     rv = s["rv"]
-                    for op in rv.get("ops", []):
+                    ops = rv.get("ops", [])
+                    for k, op in enumerate(ops):
                         if flow.operand_local(op) in tracked:
-                            if rv["rk"] == "binop" and rv["op"] in ("Lt", "Le", "Gt", "Ge"):
-                                sanitized = True
+                            if rv["rk"] == "binop" and rv["op"] in ("Lt", "Le", "Gt", "Ge") and len(ops) == 2:
+                                other = ops[1 - k]
+                                if other.get("k") == "const" and other.get("int") in ("0", "1", "-1"):
+                                    opn = rv["op"] if k == 0 else {"Lt": "Gt", "Gt": "Lt", "Le": "Ge", "Ge": "Le"}[rv["op"]]
+                                    # value OP 0: non-negative is established on ...
+                                    nonneg_on = {"Lt": False, "Le": False, "Ge": True, "Gt": True}[opn]
+                                    if (s["pl"]["l"], nonneg_on) not in tests:
+                                        tests.append((s["pl"]["l"], nonneg_on))
+                                continue    # the comparison result is a bool, not the value
+                            if rv["rk"] == "binop" and rv["op"].startswith("Add") and len(ops) == 2:
+                                other = ops[1 - k]
+                                if other.get("k") == "const" and other.get("int") == "1000000000":
+                                    fixes.add(bb)
                             if rv["rk"] == "cast" and re.match(r"u(8|16|32|64|128|size)$", rv["to"]):
-                                sinks.append(("as %s" % rv["to"], s["line"]))
+                                if ("as %s" % rv["to"], s["line"], bb) not in sinks:
+                                    sinks.append(("as %s" % rv["to"], s["line"], bb))
                             if s["pl"]["l"] not in tracked:
                                 tracked.add(s["pl"]["l"])
                                 changed = True
@@ -246,19 +262,62 @@ def run(ck, w):
                         continue
                     if any(flow.operand_local(a) in tracked for a in e.args):
                         nm = e.name
-                        if re.search(r"rem_euclid|checked_|is_negative|is_positive|signum|::abs$", nm) or re.search(r"PartialOrd", e.callee or ""):
-                            sanitized = True
-                        if re.search(r"cast_unsigned$", nm):
-                            sinks.append(("cast_unsigned", e.line))
+                        if re.search(r"rem_euclid|checked_|is_negative|is_positive|signum", nm) or re.search(r"PartialOrd", e.callee or ""):
+                            coarse = True
+                        if re.search(r"cast_unsigned$|::unsigned_abs$|::abs$|::wrapping_abs$", nm):
+                            if (nm.split("::")[-1], e.line, e.bb) not in sinks:
+                                sinks.append((nm.split("::")[-1], e.line, e.bb))
                         if re.search(r"try_into$|try_from$", nm):
                             site = err.classify(b, e)
-                            if site.fate == "panicked":
-                                sinks.append(("try_into().%s()" % site.detail, e.line))
+                            if site.fate == "panicked" and ("try_into().%s()" % site.detail, e.line, e.bb) not in sinks:
+                                sinks.append(("try_into().%s()" % site.detail, e.line, e.bb))
                         if e.dest and not e.dest["p"] and e.dest["l"] not in tracked and re.search(r"try_into$|try_from$|clone|Into", nm):
                             tracked.add(e.dest["l"])
                             changed = True
-            if sinks and not sanitized:
-                bad.append((b, src, sinks))
+            if not sinks or coarse:
+                continue
+            # path-sensitive: every conversion is reached only with the value known non-negative
+            # (the non-negative edge of a sign test) or after the +1_000_000_000 correction
+            nonneg_edges = set()
+            for (bl, pol) in tests:
+                nonneg_edges |= rules.local_bool_edges(b, {bl}, pol)
+            unsafe = [x for x in sinks if x[2] in b.reachable(src.bb, removed_edges=nonneg_edges, removed_nodes=fixes)]
+            if unsafe:
+                bad.append((b, src, unsafe))
+            # the correction borrows from the seconds: every path on which the fraction was negative
+            # (and 1e9 was added) also subtracts one from the whole seconds
+            secs = set()
+            for e in b.events:
+                if e.bb in b.live and e.name == "jiff::Timestamp::as_second" and e.dest and not e.dest["p"]:
+                    secs.add(e.dest["l"])
+            if fixes and secs:
+                ch = True
+                while ch:
+                    ch = False
+                    for bb, j, st in b.all_assigns():
+                        if st["pl"]["l"] in secs or st["pl"]["p"]:
+                            continue
+                        if any(flow.operand_local(op) in secs and not op["pl"]["p"] for op in st["rv"].get("ops", []) if op.get("k") in ("copy", "move")):
+                            if st["rv"]["rk"] in ("use", "binop", "cast") or (st["rv"]["rk"] == "agg" and False):
+                                secs.add(st["pl"]["l"])
+                                ch = True
+                        elif any(flow.operand_local(op) in secs and op["pl"]["p"] and op["pl"]["p"][0].startswith("f:0") for op in st["rv"].get("ops", []) if op.get("k") in ("copy", "move")):
+                            secs.add(st["pl"]["l"])
+                            ch = True
+                subs = set()
+                for bb, j, st in b.all_assigns():
+                    rv = st["rv"]
+                    if rv["rk"] == "binop" and rv["op"].startswith("Sub") and len(rv["ops"]) == 2:
+                        if flow.operand_local(rv["ops"][0]) in secs and rv["ops"][1].get("int") == "1":
+                            subs.add(bb)
+                    if rv["rk"] == "binop" and rv["op"].startswith("Add") and len(rv["ops"]) == 2:
+                        if flow.operand_local(rv["ops"][0]) in secs and rv["ops"][1].get("int") == "-1":
+                            subs.add(bb)
+                for f in fixes:
+                    for r in b.return_blocks():
+                        # a path through the fix that never decrements the seconds
+                        if r in b.reachable(f, removed_nodes=subs) and f in b.reachable(src.bb, removed_nodes=subs):
+                            borrow_bad.append((b, f))
     ck.floor("C01.4.n", "reads of Timestamp::subsec_nanosecond", n_src, 1)
     if bad:
         for b, src, sinks in bad:
@@ -267,6 +326,12 @@ def run(ck, w):
                     "%s:%s" % (b.file, sinks[0][1]))
     else:
         ck.ok(o, "%d source(s), all sign-tested or never converted to unsigned" % n_src, instances=n_src)
+    o = ck.ob("C01.4b", "where a negative fraction is corrected by +1_000_000_000 the whole seconds are decremented on the same path")
+    if borrow_bad:
+        for b, f in borrow_bad[:1]:
+            ck.fail(o, b.root, "fraction corrected without borrowing a second", "a path adds 1e9 to the fraction without subtracting 1 from the seconds", "%s:bb%d" % (b.file, f))
+    else:
+        ck.ok(o)
 
     # ---- 5. mode bits / time components ------------------------------------------------------------------------
     o = ck.ob("C01.5a", "UnixMode keeps permission, setuid, setgid and sticky bits: MODE_BITS == 0o7777 on both conversions")
